@@ -28,6 +28,20 @@ checks = {
  "C13": dict(cat="exploration", tech="differential monitor (accept iff 0<=v<2^n, lookup==table[i]) on both builders incl. exhaustive tinyfield + adversarial-execution monitor (lying DecomposeHint / countHint, proxy lookup blueprint, two-pass prover solving the log-derivative equation, challenge-dependence of multicommit), commitment = hash",
    text="~200k (quick) solves: range checks for n in 1..70,100..250, field bits-2..+3 over commit and plain strategies, tables of size 1..300 with constant/witness entries and all query patterns; every implemented lie must make Solve fail, a sample goes through the real Groth16/PLONK provers. Built by a sub-agent and validated against 13 mutants (12 caught, 1 equivalent).",
    note="log-derivative strategy not run over tinyfield (non-negligible soundness error by design); native Rangechecker strategy never occurs (no builder implements it)", ref="§3 C13"),
+
+ "C14": dict(cat="exploration", tech="differential monitor against a direct integer implementation of the documented domains (exhaustive over tinyfield, edge grids on bn254/bls12-377, both builders) + adversarial-execution monitor (~70 lying-hint strategies via OverrideHint, each wrong output asserted in turn, at most one accepted output per input)",
+   text="~540k cases (quick): generic and bounded comparators (three documented regimes, undefined regimes get no verdict), Mux/BinaryMux/Map/KeyDecoder/Decoder/Slice/Partition, bitslice.Partition, uints 32/64-bit ops; outputs read through a probe hint; lying hints aimed at each wrong output must make Solve fail. Built by a sub-agent; 10/10 mutants caught; found and led to 4 fix commits.",
+   note="lies are a finite hand-written set plus aimed ones; commitment-based soundness of range checks/lookups belongs to C13; Solve only (no prove/verify sample)", ref="§3 C14"),
+
+ "C04": dict(cat="exploration", tech="reference-model (differential) monitor: generated straight-line programs compiled by both real builders and solved by the real solver vs an independent big.Int interpreter of the documented API meaning; single-operation sweep over the 47-element field; C06 solution re-validation on",
+   text="~650k (quick) solves: every API call x constant/variable operand pattern x input tuples over tinyfield (exhaustive for <=2 variable operands, <=3 in thorough), plus random programs over tinyfield/bn254/bls12-377/bw6-761 in variants (constant<->variable input, compress threshold 2/5/default, r1cs vs scs): expected value accepted, value+1 rejected, documented-unsatisfiable inputs rejected, compile-time refusal only when no assignment satisfies. Found and led to 4 fix commits (IsZero under low compress threshold, scs DivUnchecked(0,0), empty sparse system).",
+   note="oracle = harness's reading of frontend/api.go doc comments (ToBinary(v,n) unsatisfiable when v needs more than n bits; a divisor that is zero under every tested assignment may be refused at compile time)", ref="§3 C04"),
+ "C05": dict(cat="exploration", tech="adversarial-execution monitor: all hint outputs of a solve replaced by enumerated lies (all 47^K tuples, all boolean patterns incl. aliased decompositions, edits, bits of v+p) via OverrideHint; real solver as referee; computed outputs read through a probe hint",
+   text="~400k (quick) lying solves over tinyfield (exhaustive lie spaces for K<=2 outputs / boolean patterns K<=10) and bn254/bls12-377/bw6-761 (targeted cheats on full-width, width-1 and short ToBinary, Cmp, AssertIsLessOrEqual, IsZero) on both builders, plus short random programs: an accepted solve must expose exactly the documented values. ~900k hint calls intercepted per quick run.",
+   note="adversary controls hint outputs only (wires forced by constraints are computed by the real solver); DivUnchecked(0,0) quotient exempt as documented", ref="§3 C05"),
+ "C15": dict(cat="exploration", tech="differential monitor against crypto/sha256, x/crypto sha3 and ripemd160, gnark-crypto MiMC/Poseidon2/Merkle/fiat-shamir: digests tapped through a hint and asserted in-circuit; test engine + compiled r1cs/scs; liveness controls with a flipped digest bit",
+   text="~9.4k (quick) / 61k (thorough) cases: lengths around every block and padding boundary, FixedLengthSum (declared max, actual) grids incl. 0 and max, all write chunkings, permutation state import, MiMC/Poseidon2 on all 7 curves, Merkle proofs depths 1..8 every leaf index with one-bit-wrong variants. Built by a sub-agent; 7/7 mutants caught; led to 1 fix commit.",
+   note="Poseidon2 widths above 3 and GKR-Poseidon2 not covered; byte gadgets on fields other than bn254 get small grids", ref="§3 C15"),
 }
 pending = {}
 for i in range(1,21):
